@@ -21,10 +21,16 @@ def _seq_of(eng, v, n, st):
             return V(TSeq(v.ty.k, nodup=True), v.ty.sort().keys(v.t))
         if v.ty is TStr:
             raise OutOfSubset(n, "list(str)")
+        if isinstance(v.ty, TSet) and z3.simplify(v.t).eq(z3.simplify(z3.EmptySet(v.ty.elem.sort()))):
+            return V(TSeq(v.ty.elem, nodup=True), SQ.empty(TSeq(v.ty.elem).sort()))
         if isinstance(v.ty, TSet):
+            t0 = z3.simplify(v.t)
+            if z3.is_store(t0) and z3.simplify(t0.arg(0)).eq(z3.simplify(z3.EmptySet(v.ty.elem.sort()))) and z3.is_true(t0.arg(2)):
+                # singleton set: exactly one enumeration order
+                return V(TSeq(v.ty.elem, nodup=True), SQ.unit(TSeq(v.ty.elem).sort(), t0.arg(1)))
             order = eng.fresh(st, TSeq(v.ty.elem, nodup=True), "setorder")
             x = z3.Const("so!x", v.ty.elem.sort())
-            st.assume(z3.ForAll([x], SQ.has(order.t, x) == z3.IsMember(x, v.t)))
+            st.assume(z3.ForAll([x], SQ.has(order.t, x) == z3.IsMember(x, v.t), patterns=[SQ.has(order.t, x)]))
             return order
     if isinstance(v, tuple) and v and v[0] == "range":
         lo, hi = v[1], v[2]
@@ -58,10 +64,10 @@ def b_len(eng, args, kw, n, st):
         if isinstance(v.ty, TDict):
             return V(TInt, SQ.length(v.ty.sort().keys(v.t)))
         if isinstance(v.ty, TSet):
-            card = z3.Function(f"card_{v.ty.elem!r}", v.ty.sort(), z3.IntSort())
-            st.assume(card(v.t) >= 0)
-            st.assume((card(v.t) == 0) == (v.t == z3.EmptySet(v.ty.elem.sort())))
-            return V(TInt, card(v.t))
+            from . import stdlib
+
+            eng.uses_axioms(stdlib.card_axioms, v.ty.elem)
+            return V(TInt, stdlib.card_fn(v.ty.elem)(v.t))
         if isinstance(v.ty, TObj):
             k = eng.reg.lookup_method(v.ty.name, "__len__")
             if k is not None:
@@ -107,7 +113,7 @@ def b_set(eng, args, kw, n, st):
     if isinstance(v, V) and isinstance(v.ty, TSeq):
         s = eng.fresh(st, TSet(v.ty.elem), "set")
         x = z3.Const("st!x", v.ty.elem.sort())
-        st.assume(z3.ForAll([x], z3.IsMember(x, s.t) == SQ.has(v.t, x)))
+        st.assume(z3.ForAll([x], z3.IsMember(x, s.t) == SQ.has(v.t, x), patterns=[z3.IsMember(x, s.t), SQ.has(v.t, x)]))
         return s
     if isinstance(v, tuple) and not (v and isinstance(v[0], str)):
         if not v:
@@ -305,16 +311,14 @@ def b_hash(eng, args, kw, n, st):
 
 # ---- spec helpers usable in contract clauses ---------------------------------
 def s_forall(eng, args, kw, n, st):
-    (lam,) = args
-    return _quant(eng, lam, n, st, z3.ForAll)
+    return _quant(eng, args[0], n, st, z3.ForAll, kw.get("trigger"))
 
 
 def s_exists(eng, args, kw, n, st):
-    (lam,) = args
-    return _quant(eng, lam, n, st, z3.Exists)
+    return _quant(eng, args[0], n, st, z3.Exists, kw.get("trigger"))
 
 
-def _quant(eng, lam, n, st, Q):
+def _quant(eng, lam, n, st, Q, trig=None):
     if not isinstance(lam, Closure):
         raise OutOfSubset(n, "forall/exists need a lambda")
     node = lam.node
@@ -341,9 +345,17 @@ def _quant(eng, lam, n, st, Q):
             st.env[nm] = V(ty, c)
         body = eng.ev(node.body, st)
         b = body.t if isinstance(body, V) and body.ty is TBool else eng.truthy(body, n)
+        pats = []
+        if isinstance(trig, Closure):
+            for nm2, c2 in zip([a.arg for a in trig.node.args.args], bound):
+                st.env[nm2] = V(TInt if c2.sort() == z3.IntSort() else st.env[names[[str(x) for x in bound].index(str(c2))]].ty, c2)
+            tv = eng.ev(trig.node.body, st)
+            tvs = tv if isinstance(tv, tuple) else (tv,)
+            terms = [x.t for x in tvs]
+            pats = [z3.MultiPattern(*terms) if len(terms) > 1 else terms[0]]
     finally:
         st.env = saved
-    return V(TBool, Q(bound, b))
+    return V(TBool, Q(bound, b, patterns=pats) if pats else Q(bound, b))
 
 
 def ast_name(node):
@@ -377,7 +389,22 @@ def s_ite(eng, args, kw, n, st):
     return V(a.ty, z3.If(eng.truthy(c, n), a.t, eng.coerce(b, a.ty, n).t))
 
 
+def _sp_dedup(eng, args, kw, n, st):
+    from . import stdlib
+
+    eng.uses_axioms(stdlib.seq_axioms, args[0].ty.elem)
+    return stdlib.sp_dedup(eng, args, kw, n, st)
+
+
+def _sp_subseq(eng, args, kw, n, st):
+    from . import stdlib
+
+    eng.uses_axioms(stdlib.seq_axioms, args[0].ty.elem)
+    return stdlib.sp_subseq(eng, args, kw, n, st)
+
+
 BUILTINS = {
+    "dedup": _sp_dedup, "subseq": _sp_subseq,
     "len": b_len, "range": b_range, "list": b_list, "tuple": b_tuple, "set": b_set, "dict": b_dict, "enumerate": b_enumerate,
     "zip": b_zip, "isinstance": b_isinstance, "sorted": b_sorted, "cast": b_cast, "str": b_str, "repr": b_repr, "bool": b_bool,
     "slice": b_slice, "min": b_min, "max": b_max, "iter": b_iter, "next": b_next, "all": b_all, "any": b_any, "int": b_int,
@@ -411,6 +438,8 @@ def method(eng, recv, meth, args, kw, n, st):
             if meth == "copy":
                 return recv
         if ty is TStr:
+            if meth == "__hash__":
+                return V(TInt, z3.Function("hash_str", z3.StringSort(), z3.IntSort())(recv.t))
             if meth == "startswith":
                 return V(TBool, SQ.prefix_of(args[0].t, recv.t))
             if meth == "endswith":
